@@ -20,7 +20,11 @@ import (
 //	e2e ps=<ps> enc=<0|1> comp=<0|1> k=<k> d=<u.len.seed,...>
 //	   => B=…;U0=…;…;socks=<n>;mixed=<0|1>
 //
-// One pair per (ps, enc, comp) is started lazily and kept for the whole run.
+//	e2es …  the same through a sudp tunnel: user -> real SUDPVisitor (frpc) -> frps (server/proxy/sudp.go,
+//	        visitor manager) -> frpc sudp proxy (client/proxy/sudp.go, its own Forwarder per visitor
+//	        connection) -> backend.  enc/comp are set on the visitor connection AND on the work connection.
+//
+// One pair per (ps, enc, comp, kind) is started lazily and kept for the whole run.
 type e2ePair struct {
 	remote  *net.UDPAddr
 	backend *net.UDPConn
@@ -57,8 +61,8 @@ func (p *e2ePair) reset() {
 	p.mu.Unlock()
 }
 
-func getPair(ps int, enc, comp bool) *e2ePair {
-	key := fmt.Sprintf("%d/%v/%v", ps, enc, comp)
+func getPair(ps int, enc, comp, sudp bool) *e2ePair {
+	key := fmt.Sprintf("%d/%v/%v/%v", ps, enc, comp, sudp)
 	if p, ok := e2ePairs[key]; ok {
 		return p
 	}
@@ -115,21 +119,47 @@ func getPair(ps int, enc, comp bool) *e2ePair {
 	f := false
 	ccfg.LoginFailExit = &f
 	ccfg.Complete()
-	pc := &v1.UDPProxyConfig{}
-	pc.Name = "c03udp"
-	pc.Type = "udp"
-	pc.LocalIP = "127.0.0.1"
-	pc.LocalPort = backend.LocalAddr().(*net.UDPAddr).Port
-	pc.RemotePort = freeUDPPort()
-	pc.Transport.UseEncryption = enc
-	pc.Transport.UseCompression = comp
-	pc.Complete("")
-	cli, err := client.NewService(client.ServiceOptions{Common: ccfg, ProxyCfgs: []v1.ProxyConfigurer{pc}})
+	var opts client.ServiceOptions
+	if sudp {
+		pc := &v1.SUDPProxyConfig{}
+		pc.Name = "c03sudp"
+		pc.Type = "sudp"
+		pc.Secretkey = "c03-sk"
+		pc.LocalIP = "127.0.0.1"
+		pc.LocalPort = backend.LocalAddr().(*net.UDPAddr).Port
+		pc.Transport.UseEncryption = enc
+		pc.Transport.UseCompression = comp
+		pc.Complete("")
+		vc := &v1.SUDPVisitorConfig{}
+		vc.Name = "c03sudp_visitor"
+		vc.Type = "sudp"
+		vc.ServerName = "c03sudp"
+		vc.SecretKey = "c03-sk"
+		vc.BindAddr = "127.0.0.1"
+		vc.BindPort = freeUDPPort()
+		vc.Transport.UseEncryption = enc
+		vc.Transport.UseCompression = comp
+		vc.Complete(ccfg)
+		opts = client.ServiceOptions{Common: ccfg, ProxyCfgs: []v1.ProxyConfigurer{pc}, VisitorCfgs: []v1.VisitorConfigurer{vc}}
+		p.remote = &net.UDPAddr{IP: net.IPv4(127, 0, 0, 1), Port: vc.BindPort}
+	} else {
+		pc := &v1.UDPProxyConfig{}
+		pc.Name = "c03udp"
+		pc.Type = "udp"
+		pc.LocalIP = "127.0.0.1"
+		pc.LocalPort = backend.LocalAddr().(*net.UDPAddr).Port
+		pc.RemotePort = freeUDPPort()
+		pc.Transport.UseEncryption = enc
+		pc.Transport.UseCompression = comp
+		pc.Complete("")
+		opts = client.ServiceOptions{Common: ccfg, ProxyCfgs: []v1.ProxyConfigurer{pc}}
+		p.remote = &net.UDPAddr{IP: net.IPv4(127, 0, 0, 1), Port: pc.RemotePort}
+	}
+	cli, err := client.NewService(opts)
 	if err != nil {
 		panic(err)
 	}
 	go func() { _ = cli.Run(context.Background()) }()
-	p.remote = &net.UDPAddr{IP: net.IPv4(127, 0, 0, 1), Port: pc.RemotePort}
 
 	// wait until a probe makes the round trip (the server proxy fetches its work connection
 	// 500 ms after registration)
@@ -234,7 +264,7 @@ func e2eExec(tok []string) string {
 		f := strings.Split(e, ".")
 		ds = append(ds, [3]int{atoi(f[0]), atoi(f[1]), atoi(f[2])})
 	}
-	p := getPair(ps, enc, comp)
+	p := getPair(ps, enc, comp, tok[0] == "e2es")
 	res, missing := runE2E(p, k, ds)
 	if missing && ps <= 7605 {
 		res, _ = runE2E(p, k, ds)
